@@ -239,10 +239,26 @@ func main() {
 	}
 	runWorkers(det, detCfgs, parallel, 1, 10*time.Minute)
 	for s, d := range det.digests {
-		if a.digests[s] != d {
-			fmt.Printf("HARNESS-NONDETERMINISM: process seed %d produced event-log digest %s, then %s\n", s, a.digests[s], d)
+		if a.digests[s] == d {
+			continue
+		}
+		// A wall-clock watchdog expiring on an overloaded machine also shows up here. Repeat the two
+		// executions of that seed one after the other before calling it nondeterminism.
+		fmt.Printf("note: process seed %d: event-log digests %s and %s differ; repeating both executions (inconclusive cases so far: %v %v)\n", s, a.digests[s], d, a.inconclusive, det.inconclusive)
+		var cfg c16sim.WorkerConfig
+		for _, c := range detCfgs {
+			if c.Seed == s {
+				cfg = c
+			}
+		}
+		r1, r2 := newAgg(), newAgg()
+		runWorkers(r1, []c16sim.WorkerConfig{cfg}, 1, 0, 10*time.Minute)
+		runWorkers(r2, []c16sim.WorkerConfig{cfg}, 1, 1, 10*time.Minute)
+		if r1.digests[s] != r2.digests[s] || r1.digests[s] == "" {
+			fmt.Printf("HARNESS-NONDETERMINISM: process seed %d produced event-log digest %s, then %s\n", s, r1.digests[s], r2.digests[s])
 			os.Exit(drv.ExitInconclusive)
 		}
+		a.violations = append(a.violations, r1.violations...)
 	}
 
 	// Process-level leg on the real binary.
